@@ -33,7 +33,24 @@ type Conn struct {
 	ConnectBeh  string   `json:"connect_beh,omitempty"` // behaviour on the CONNECT itself
 	Unreachable bool     `json:"unreachable,omitempty"` // blind: the target cannot be dialled
 	Inner       []string `json:"inner"`                 // behaviours of the (inner) requests
+	// Schemes (plain connections; parallel to Inner, "" = http): the scheme of the
+	// absolute-form target: "https" (the client's choice of origin), "HTTP", or one
+	// nobody can forward (ftp, ws, gopher, hxxp). Whatever the target says, the
+	// request was read by the proxy: both modifiers run once, a skipped round
+	// trip is a 200, and only a modifier (mutate rewrites such a scheme to http, as
+	// martianurl.Modifier would) makes an origin reachable.
+	Schemes []string `json:"schemes,omitempty"`
 }
+
+func (cn Conn) scheme(i int) string {
+	if i < len(cn.Schemes) {
+		return cn.Schemes[i]
+	}
+	return ""
+}
+
+// otherScheme: no transport can carry a request with this target scheme.
+func otherScheme(s string) bool { return s != "" && s != "https" && s != "HTTP" }
 
 // Case is 1..3 connections served by one proxy.
 type Case struct {
@@ -86,8 +103,17 @@ func hijackToken(id string) string { return "CLIENT-TO-HIJACKER-" + id + "\n" }
 // hijackAck is the reading hijacker's acknowledgement.
 func hijackAck(id string) string { return "HIJACKER-GOT-" + id + "\n" }
 
-// connectProxy is a minimal downstream CONNECT proxy: 200, then splice.
-func connectProxy(l net.Listener, route func(host string) string) {
+// dsEntry is one request that reached the downstream proxy.
+type dsEntry struct {
+	id, host, method string
+	seq              int64
+}
+
+// connectProxy is a minimal downstream proxy: CONNECT is answered 200 and
+// spliced; any other request is forwarded to where route says (one upstream
+// connection per request) and its answer relayed. seen is told of every
+// request that arrives.
+func connectProxy(l net.Listener, route func(host string) string, seen func(dsEntry)) {
 	for {
 		c, err := l.Accept()
 		if err != nil {
@@ -96,9 +122,52 @@ func connectProxy(l net.Listener, route func(host string) string) {
 		go func() {
 			defer c.Close()
 			br := bufio.NewReader(c)
-			req, err := http.ReadRequest(br)
-			if err != nil || req.Method != "CONNECT" {
-				return
+			var req *http.Request
+			for {
+				c.SetReadDeadline(time.Now().Add(90 * time.Second))
+				var err error
+				req, err = http.ReadRequest(br)
+				if err != nil {
+					return
+				}
+				c.SetReadDeadline(time.Time{})
+				host := req.Host
+				if req.URL.Host != "" {
+					host = req.URL.Host
+				}
+				seen(dsEntry{id: req.Header.Get("X-Verif-Id"), host: host, method: req.Method})
+				if req.Method == "CONNECT" {
+					break
+				}
+				to := route(host)
+				var t net.Conn
+				if to != "" {
+					t, err = net.DialTimeout("tcp", to, 5*time.Second)
+				}
+				if to == "" || err != nil {
+					io.Copy(io.Discard, req.Body)
+					if _, err := c.Write([]byte("HTTP/1.1 502 Bad Gateway\r\nContent-Length: 0\r\n\r\n")); err != nil {
+						return
+					}
+					continue
+				}
+				req.Header.Del("Proxy-Authorization")
+				req.Header.Del("Proxy-Connection")
+				werr := req.Write(t)
+				var res *http.Response
+				if werr == nil {
+					res, werr = http.ReadResponse(bufio.NewReader(t), req)
+				}
+				if werr != nil {
+					t.Close()
+					return
+				}
+				res.Close = false
+				werr = res.Write(c)
+				t.Close()
+				if werr != nil {
+					return
+				}
 			}
 			to := route(req.Host)
 			if to == "" {
@@ -312,6 +381,9 @@ func (p *probe) ModifyRequest(req *http.Request) error {
 	switch beh {
 	case bMutate:
 		req.Header.Set("X-Mutated-Req", id)
+		if otherScheme(req.URL.Scheme) {
+			req.URL.Scheme = "http"
+		}
 	case bReqErr:
 		err = p.errText("reqerr", id)
 	case bSkip, bSkipNoHost:
@@ -378,6 +450,7 @@ type expect struct {
 	conn    int
 	wantRes bool
 	reached bool // the client got as far as sending it
+	scheme  string
 }
 
 func isHijack(b string) bool { return b == bHijReq || b == bHijRes }
@@ -422,7 +495,8 @@ func runOnce(c Case, T time.Duration) (v kit.Verdict) {
 	defer plainOrigin.Close()
 	tlsOrigin := netkit.NewTLSOrigin(netkit.ServerTLS("secure.test"), handler)
 	defer tlsOrigin.Close()
-	if c.EarlyAnswer {
+	early := c.EarlyAnswer && c.Downstream == "" // (the forwarding hop of this harness relays an answer only after the whole request)
+	if early {
 		// the same answer, given on the head alone; the body is taken afterwards
 		early := func(r *netkit.ReqLog) *netkit.Script {
 			if r.CL == 0 && len(r.TE) == 0 {
@@ -507,26 +581,41 @@ func runOnce(c Case, T time.Duration) (v kit.Verdict) {
 	p.SetTimeout(60 * time.Second)
 	netkit.UpstreamTLS(p)
 	p.SetDial(dialer.Dial)
-	if c.CloneRT {
-		p.SetRoundTripper(cloningRT{p.GetRoundTripper()})
-	}
+	var dsLog []dsEntry
+	downAddr := ""
 	if c.Downstream != "" {
 		dl, err := netkit.Listen()
 		if err != nil {
 			return kit.Failf("C02/harness/listen", "%v", err)
 		}
 		defer dl.Close()
+		downAddr = dl.Addr().String()
 		go connectProxy(dl, func(host string) string {
-			if strings.HasPrefix(host, "echo.test") {
+			switch {
+			case strings.HasPrefix(host, "echo.test"), strings.HasPrefix(host, "skipped-"):
 				return echoL.Addr().String()
+			case strings.HasPrefix(host, "secure.test"):
+				return tlsOrigin.Addr
+			case strings.HasPrefix(host, "origin.test"):
+				return plainOrigin.Addr
 			}
 			return ""
+		}, func(e dsEntry) {
+			e.seq = atomic.AddInt64(&clock, 1)
+			dmu.Lock()
+			dsLog = append(dsLog, e)
+			dmu.Unlock()
 		})
-		u := &url.URL{Scheme: "http", Host: dl.Addr().String()}
+		u := &url.URL{Scheme: "http", Host: downAddr}
 		if c.Downstream == "credentials" {
 			u.User = url.UserPassword("verif", "secret")
 		}
+		// (the downstream proxy is made known to the transport martian built; a
+		// wrapping RoundTripper is put around it afterwards)
 		p.SetDownstreamProxy(u)
+	}
+	if c.CloneRT {
+		p.SetRoundTripper(cloningRT{p.GetRoundTripper()})
 	}
 	p.SetRequestModifier(pb)
 	p.SetResponseModifier(pb)
@@ -759,7 +848,11 @@ func runOnce(c Case, T time.Duration) (v kit.Verdict) {
 			}
 			for xi, beh := range cn.Inner {
 				id := fmt.Sprintf("c%d-x%d", ci, xi)
-				expects = append(expects, expect{id: id, beh: beh, conn: ci, wantRes: beh != bHijReq, reached: true})
+				scheme := ""
+				if cn.Mode == "plain" && beh != bSkipNoHost {
+					scheme = cn.scheme(xi)
+				}
+				expects = append(expects, expect{id: id, beh: beh, conn: ci, wantRes: beh != bHijReq, reached: true, scheme: scheme})
 				if tlsInside && isHijack(beh) {
 					pb.mu.Lock()
 					pb.mitm[id] = true
@@ -778,6 +871,12 @@ func runOnce(c Case, T time.Duration) (v kit.Verdict) {
 						target, host = "http://down.test/"+id, "down.test"
 					}
 				}
+				if scheme != "" {
+					if scheme == "https" && beh != bDown {
+						host = "secure.test"
+					}
+					target = scheme + "://" + host + "/" + id
+				}
 				wire := innerRequest(c.Body, target, host, id, beh)
 				if beh == bSkipNoHost {
 					wire = fmt.Sprintf("GET /healthz-%s HTTP/1.0\r\nX-Verif-Id: %s\r\nX-Verif-Beh: %s\r\n\r\n", id, id, beh)
@@ -785,7 +884,7 @@ func runOnce(c Case, T time.Duration) (v kit.Verdict) {
 				if beh == bHijReq && c.Body != "" && c.PartialOnHijack {
 					wire = wire[:strings.Index(wire, "\r\n\r\n")+4+3]
 				}
-				if beh == bHijRes && c.Body != "" && c.EarlyAnswer {
+				if beh == bHijRes && c.Body != "" && early && !otherScheme(scheme) { // (an early answer takes an origin that is reached)
 					// The body of this request is (or may still be) in transit when the
 					// response modifier hijacks: whoever forwards it shares the session's
 					// bufio.Reader, so this hijacker keeps to the net.Conn.
@@ -824,8 +923,17 @@ func runOnce(c Case, T time.Duration) (v kit.Verdict) {
 					addf("C02/exchange/"+cn.Mode+"/"+class, "exchange %s (%s): %v", id, beh, err)
 					return
 				}
+				if otherScheme(scheme) && beh != bMutate && beh != bSkip {
+					// No round trip is possible; what the answer is (502 today) is not
+					// the statement's business, that it passed the response modifier is.
+					if beh == bResErr && !strings.Contains(strings.Join(res.Header["Warning"], " | "), wantErrText(c.ErrValue, "reserr", id)) {
+						addf("C02/error/"+cn.Mode+"-non-http-scheme/response-error-not-in-warning", "exchange %s (%s://): response modifier returned an error but the client's Warning headers are %q", id, scheme, res.Header["Warning"])
+					}
+					continue
+				}
 				if beh == bDown {
-					if res.StatusCode != 502 || res.Header.Get("Warning") == "" {
+					// (through a downstream proxy the refusal may be that proxy's own answer)
+					if res.StatusCode != 502 || (c.Downstream == "" && res.Header.Get("Warning") == "") {
 						addf("C02/exchange/"+cn.Mode+"/origin-down-not-502-with-warning", "exchange %s: origin cannot be dialled, client got %d with Warning %q", id, res.StatusCode, res.Header["Warning"])
 					}
 					continue
@@ -894,6 +1002,10 @@ func runOnce(c Case, T time.Duration) (v kit.Verdict) {
 		if strings.HasSuffix(e.id, "-connect") {
 			kind = m + "-connect"
 		}
+		if otherScheme(e.scheme) {
+			kind = m + "-non-http-scheme"
+		}
+		unforwardable := otherScheme(e.scheme) && e.beh != bMutate
 		var reqCalls, resCalls []call
 		for _, cl := range cs {
 			if cl.phase == "req" {
@@ -963,6 +1075,40 @@ func runOnce(c Case, T time.Duration) (v kit.Verdict) {
 				mine = append(mine, r)
 			}
 		}
+		// ... which includes the downstream proxy, where one is configured
+		if c.Downstream != "" {
+			via := kind + "-via-downstream-proxy"
+			skipped := e.beh == bSkip || e.beh == bSkipNoHost
+			n := 0
+			dmu.Lock()
+			for _, d := range dsLog {
+				if d.id != e.id {
+					continue
+				}
+				n++
+				if d.seq < rq.seq {
+					v.Addf("C02/calls/"+via+"/upstream-contact-before-request-modifier", "exchange %s reached the downstream proxy (t=%d) before its request modifier ran (t=%d)", e.id, d.seq, rq.seq)
+				}
+			}
+			// A CONNECT the proxy answers itself dials nobody. (Attributable when
+			// nothing but blind tunnels runs in the case: no transport dials on its own.)
+			dials := 0
+			if skipped && strings.HasSuffix(e.id, "-connect") && len(resCalls) == 1 {
+				onlyBlind := true
+				for _, cn := range c.Conns {
+					onlyBlind = onlyBlind && cn.Mode == "blind"
+				}
+				for _, d := range dialSeq[downAddr] {
+					if onlyBlind && d > rq.seq && d < resCalls[0].seq {
+						dials++
+					}
+				}
+			}
+			dmu.Unlock()
+			if (skipped || e.beh == bHijReq || unforwardable) && n+dials > 0 {
+				v.Addf("C02/"+map[bool]string{true: "skip", false: "calls"}[skipped]+"/"+via+"/upstream-contacted", "exchange %s (%s) must cause no upstream contact, but the downstream proxy received it %d time(s) and was dialled %d time(s) between its two modifier calls", e.id, e.beh, n, dials)
+			}
+		}
 		switch {
 		case strings.HasSuffix(e.id, "-connect"):
 			if m == "blind" {
@@ -991,9 +1137,13 @@ func runOnce(c Case, T time.Duration) (v kit.Verdict) {
 					v.Addf("C02/calls/blind-connect/upstream-contact-before-request-modifier", "target dialled (t=%d) before the request modifier ran (t=%d)", ds[0], rq.seq)
 				}
 			}
-		case e.beh == bSkip || e.beh == bSkipNoHost || e.beh == bHijReq || e.beh == bDown:
+		case e.beh == bSkip || e.beh == bSkipNoHost || e.beh == bHijReq || e.beh == bDown || unforwardable:
 			if len(mine) != 0 {
-				v.Addf("C02/"+map[string]string{bSkip: "skip", bSkipNoHost: "skip", bHijReq: "hijack", bDown: "origin-down"}[e.beh]+"/"+kind+"/origin-contacted", "exchange %s (%s) must not reach the origin but the origin received it %d time(s)", e.id, e.beh, len(mine))
+				clause := map[string]string{bSkip: "skip", bSkipNoHost: "skip", bHijReq: "hijack", bDown: "origin-down"}[e.beh]
+				if clause == "" {
+					clause = "exchange"
+				}
+				v.Addf("C02/"+clause+"/"+kind+"/origin-contacted", "exchange %s (%s) must not reach the origin but the origin received it %d time(s)", e.id, e.beh, len(mine))
 			}
 		default:
 			if len(mine) != 1 {
@@ -1067,12 +1217,15 @@ func genCase(t *rapid.T) Case {
 	c.PartialOnHijack = c.Body != "" && rapid.Bool().Draw(t, "partial_on_hijack")
 	c.EarlyAnswer = c.Body != "" && rapid.Bool().Draw(t, "early_answer")
 	c.HijackReads = rapid.SampledFrom([]string{"", "conn", "brw"}).Draw(t, "hijack_reads")
-	if family == "blind" && rapid.Bool().Draw(t, "via_downstream") {
+	// the proxy reaches upstream through a downstream proxy: half of the blind
+	// cases, a quarter of the plain ones
+	if (family == "blind" && rapid.Bool().Draw(t, "via_downstream")) || (family == "plain" && rapid.IntRange(0, 3).Draw(t, "via_downstream") == 0) {
 		c.Downstream = rapid.SampledFrom([]string{"plain", "credentials"}).Draw(t, "downstream")
+		c.EarlyAnswer = false
 	}
 	for i := 0; i < n; i++ {
 		mode := family
-		if family != "plain" && c.Downstream == "" && rapid.IntRange(0, 2).Draw(t, "plain_too") == 0 {
+		if family != "plain" && rapid.IntRange(0, 2).Draw(t, "plain_too") == 0 {
 			mode = "plain"
 		}
 		if mode == "mitm" && rapid.IntRange(0, 3).Draw(t, "plain_inside") == 0 {
@@ -1084,7 +1237,7 @@ func genCase(t *rapid.T) Case {
 			if mode == "blind" {
 				// (through a downstream proxy the refusal is that proxy's answer, which martian relays)
 				cn.Unreachable = rapid.IntRange(0, 4).Draw(t, "unreachable") == 0
-				if c.Downstream == "" && rapid.IntRange(0, 5).Draw(t, "skip_connect") == 0 {
+				if rapid.IntRange(0, 5).Draw(t, "skip_connect") == 0 {
 					cn.ConnectBeh, cn.Unreachable = bSkip, false
 				}
 			}
@@ -1097,6 +1250,13 @@ func genCase(t *rapid.T) Case {
 					b = bSkipNoHost
 				}
 				cn.Inner = append(cn.Inner, b)
+				if mode == "plain" {
+					sch := ""
+					if rapid.IntRange(0, 3).Draw(t, "other_scheme") == 0 {
+						sch = rapid.SampledFrom([]string{"ftp", "ws", "gopher", "hxxp", "https", "HTTP"}).Draw(t, "scheme")
+					}
+					cn.Schemes = append(cn.Schemes, sch)
+				}
 				if isHijack(b) || b == bSkipNoHost {
 					break // (an HTTP/1.0 request without keep-alive ends its connection)
 				}
@@ -1189,6 +1349,28 @@ func classes(c Case) []string {
 		set["origin-answers-before-the-body"] = true
 	}
 	for _, cn := range c.Conns {
+		if c.Downstream != "" {
+			set["via-downstream-proxy-"+cn.Mode] = true
+			if cn.ConnectBeh == bSkip {
+				set["skipped-connect-with-downstream-proxy"] = true
+			}
+		}
+		if cn.Mode != "plain" {
+			continue
+		}
+		for i, b := range cn.Inner {
+			if b == bSkipNoHost || cn.scheme(i) == "" {
+				continue
+			}
+			if otherScheme(cn.scheme(i)) {
+				set["target-scheme-not-http"] = true
+				set["target-scheme-not-http-"+b] = true
+			} else {
+				set["target-scheme-"+cn.scheme(i)] = true
+			}
+		}
+	}
+	for _, cn := range c.Conns {
 		// (hijackers inside TLS stay silent and do not read)
 		if cn.Mode != "plain" && isHijack(cn.ConnectBeh) && c.HijackReads != "" {
 			set["hijacker-reads-"+c.HijackReads] = true
@@ -1225,10 +1407,11 @@ func classes(c Case) []string {
 
 var propMods = &kit.Prop[Case]{
 	ID: "C02", Name: "modifiers",
-	Rule: "1..3 connections (plain, blind CONNECT to an echo target, CONNECT+MITM with inner requests over TLS), 1..5 exchanges each, behaviour per exchange in {pass, mutate, request error, response error, skip round trip, hijack on request, hijack on response}; hijackers outside TLS optionally go on to read what the client sends next (from the conn or the bufio.ReadWriter they were handed); origins that answer on the head while the request body is still in transit; probe modifiers log every call with request/context/session identity; non-trivial = >=2 exchanges on a connection or any behaviour other than pass",
+	Rule: "1..3 connections (plain, blind CONNECT to an echo target, CONNECT+MITM with inner requests over TLS), 1..5 exchanges each, behaviour per exchange in {pass, mutate, request error, response error, skip round trip, hijack on request, hijack on response}; hijackers outside TLS optionally go on to read what the client sends next (from the conn or the bufio.ReadWriter they were handed); origins that answer on the head while the request body is still in transit; upstream reached directly or through a downstream proxy (plain requests and blind CONNECTs; what reaches that proxy counts as upstream contact); absolute-form targets with the scheme http, https, HTTP or one no transport carries (ftp, ws, gopher, hxxp); probe modifiers log every call with request/context/session identity; non-trivial = >=2 exchanges on a connection or any behaviour other than pass",
 	Gen:  genCase, Run: run, NonTrivial: nontrivial, Classes: classes, Journal: true,
 	Gates: map[string]float64{"multi-exchange-connection": 0.4, "mode-mitm": 0.2, "mode-blind": 0.1, "beh-hijack-req": 0.08, "beh-hijack-res": 0.08, "beh-skip": 0.1,
-		"reading-hijacker-on-hijack-res": 0.03, "reading-hijacker-on-hijack-req": 0.03},
+		"reading-hijacker-on-hijack-res": 0.03, "reading-hijacker-on-hijack-req": 0.03,
+		"target-scheme-not-http": 0.1, "via-downstream-proxy-plain": 0.08, "skipped-connect-with-downstream-proxy": 0.01},
 }
 
 func TestModifiers(t *testing.T) {
